@@ -28,6 +28,14 @@
                      Socket::close kept the handle in a ManuallyDrop inside the future: dropping
                      the future before its first poll forgot the handle, the descriptor was never
                      closed. Now the unpolled future drops the handle like any other drop.
+     RegisterOnce    NOT in the code - a control switch (RegisterOnce = TRUE): take() registers its
+                     waker only in the first poll that finds the descriptor shared. When the
+                     pending future is polled again with ANOTHER waker (moved to another task,
+                     select! / timeout then awaited elsewhere) the last drop wakes the stale
+                     waker and the task that now owns the future sleeps for ever. The code
+                     registers in every poll (WakerSlot / AtomicWaker::register replaces the
+                     stored waker unless will_wake), which is what the model checks with the
+                     waker identity wk / slot.
      DropRace        OPEN, known finding (sync only): Drop reads strong_count and waits, wakes,
                      and only then the count is decremented: the closer re-polls before the
                      decrement, or two droppers both read 3, or the dropper read waits before
@@ -45,7 +53,9 @@ CONSTANTS
   AllowSpurious,\* the executor may re-poll the closer without a wake
   FileLayer,    \* close() of compio-fs / compio-net rather than the raw SharedFd::take()
   SilentRelease,\* TRUE = code before the repair: a take() future releases its reference silently
-  ForgetsHandle \* TRUE = code before the repair: the unpolled close() future forgets the handle
+  ForgetsHandle,\* TRUE = code before the repair: the unpolled close() future forgets the handle
+  MaxMigrate,   \* how often the pending close future may be polled with ANOTHER waker (task migration)
+  RegisterOnce  \* control only: TRUE = the waker is registered in the first pending poll only
 
 Universe == <<"h1", "h2", "h3", "o1", "o2">>
 Idx(h) == CHOOSE i \in 1..Len(Universe) : Universe[i] = h
@@ -57,28 +67,35 @@ ASSUME /\ Handles \subseteq {Universe[i] : i \in 1..Len(Universe)}
 VARIABLES
   count,    \* strong count of Shared<Inner>
   waits,    \* Inner.waits
-  slot,     \* a waker is stored in Inner.waker
-  woken,    \* the closer's task was woken and has not been polled since
+  slot,     \* the waker stored in Inner.waker: 0 = none, 1..2 = identity of the task's waker
+  woken,    \* the set of wakers (tasks) that were woken and have not polled since
+  wk,       \* the waker given to the closer's latest poll (the task that owns the future now)
+  registered, \* take() has registered a waker at least once (only RegisterOnce looks at it)
+  nmig,     \* number of migrations so far
   hs,       \* per holder: "none" "live" "wake" "dec" "t2" "t2d" "fchk" "gone"
   pcC,      \* closer: "idle" "u1" "reg" "u2" "pending" "done" "dchk" "dwake" "ddec" "cancelled" "forgot"
   takers,   \* ghost: holders that called take() themselves (labels the generated programs)
   closed,   \* how often the owned descriptor T left the Shared (close or hand-out)
   silentLast \* ghost: the last reference but the closer's was released silently
-vars == <<count, waits, slot, woken, hs, pcC, takers, closed, silentLast>>
+vars == <<count, waits, slot, woken, wk, registered, nmig, hs, pcC, takers, closed, silentLast>>
+cvars == <<wk, registered, nmig>>
+Wakers == 1..2
 
 HState == {"none", "live", "wake", "dec", "t2", "t2d", "fchk", "gone"}
 CState == {"idle", "u1", "reg", "u2", "pending", "done", "dchk", "dwake", "ddec", "cancelled", "forgot"}
 
 TypeOK ==
   /\ count \in 0..(Cardinality(Handles) + 1)
-  /\ waits \in BOOLEAN /\ slot \in BOOLEAN /\ woken \in BOOLEAN /\ silentLast \in BOOLEAN
+  /\ waits \in BOOLEAN /\ slot \in {0} \cup Wakers /\ woken \subseteq Wakers /\ silentLast \in BOOLEAN
+  /\ wk \in Wakers /\ registered \in BOOLEAN /\ nmig \in 0..MaxMigrate
   /\ hs \in [Handles -> HState]
   /\ pcC \in CState /\ takers \subseteq Handles
   /\ closed \in 0..2
 
 Init ==
   /\ count = Cardinality(InitLive) + 1
-  /\ waits = FALSE /\ slot = FALSE /\ woken = FALSE /\ silentLast = FALSE
+  /\ waits = FALSE /\ slot = 0 /\ woken = {} /\ silentLast = FALSE
+  /\ wk = 1 /\ registered = FALSE /\ nmig = 0
   /\ hs = [h \in Handles |-> IF h \in InitLive THEN "live" ELSE "none"]
   /\ pcC = "idle" /\ takers = {}
   /\ closed = 0
@@ -97,7 +114,8 @@ Released(h) == hs[h] \in {"none", "gone", "fchk"}
 CloserHolds == pcC \in {"idle", "u1", "reg", "u2", "pending", "dchk", "dwake", "ddec", "forgot"}
 OpsUsing == {o \in Ops : hs[o] = "live"}
 
-Wake == /\ woken' = (woken \/ slot) /\ slot' = FALSE     \* WakerSlot::wake = take + wake
+Wake == /\ woken' = (IF slot # 0 THEN woken \cup {slot} ELSE woken)   \* WakerSlot::wake = take + wake:
+        /\ slot' = 0                                                   \* the task whose waker was stored
 Unref == /\ count' = count - 1
          /\ closed' = IF count = 1 THEN closed + 1 ELSE closed  \* last owner drops Inner
 
@@ -115,6 +133,7 @@ Clone(src, h) ==
   /\ hs' = [hs EXCEPT ![h] = "live"]
   /\ count' = count + 1
   /\ UNCHANGED <<waits, slot, woken, pcC, takers, closed, silentLast>>
+  /\ UNCHANGED cvars
 
 (* Drop for SharedFd, site fd.drop.check: strong_count == 2 && waits.
    Also the tail of a take() that resolved to None (repaired code: the future drops its SharedFd) *)
@@ -123,6 +142,7 @@ DropCheck(h) ==
   /\ hs[h] \in {"live", "t2d"}
   /\ hs' = [hs EXCEPT ![h] = IF count = 2 /\ waits THEN "wake" ELSE "dec"]
   /\ UNCHANGED <<count, waits, slot, woken, pcC, takers, closed, silentLast>>
+  /\ UNCHANGED cvars
 
 (* site fd.drop.wake: self.0.waker.wake() *)
 DropWake(h) ==
@@ -130,6 +150,7 @@ DropWake(h) ==
   /\ Wake
   /\ hs' = [hs EXCEPT ![h] = "dec"]
   /\ UNCHANGED <<count, waits, pcC, takers, closed, silentLast>>
+  /\ UNCHANGED cvars
 
 (* site fd.drop.dec: end of the Drop body, the field Shared<Inner> is dropped *)
 DropDec(h) ==
@@ -138,6 +159,7 @@ DropDec(h) ==
   /\ hs' = [hs EXCEPT ![h] = "gone"]
   /\ silentLast' = FALSE
   /\ UNCHANGED <<waits, slot, woken, pcC, takers>>
+  /\ UNCHANGED cvars
 
 (* second take() by another handle, site fd.take.swap: waits is already set, the future
    resolves to None ... *)
@@ -147,6 +169,7 @@ T2Swap(h) ==
   /\ hs' = [hs EXCEPT ![h] = "t2"]
   /\ takers' = takers \cup {h}
   /\ UNCHANGED <<count, waits, slot, woken, pcC, closed, silentLast>>
+  /\ UNCHANGED cvars
 
 (* ... site fd.take.none. Repaired code: nothing happens here, the SharedFd captured by the
    future is dropped next (DropCheck ...). In the fixed protocol the release notifies. *)
@@ -155,6 +178,7 @@ T2None(h) ==
   /\ hs[h] = "t2" /\ Quiet(h)
   /\ hs' = [hs EXCEPT ![h] = "t2d"]
   /\ UNCHANGED <<count, waits, slot, woken, pcC, takers, closed, silentLast>>
+  /\ UNCHANGED cvars
 
 (* Old code (deviation SilentRelease): the Shared<Inner> captured by the future is dropped
    as a plain Rc/Arc, no wake. Also the release step of the fixed protocol (which notifies). *)
@@ -165,6 +189,7 @@ T2Release(h) ==
   /\ hs' = [hs EXCEPT ![h] = IF Variant = "fixed" /\ count > 1 THEN "fchk" ELSE "gone"]
   /\ silentLast' = (Variant # "fixed" /\ count = 2)
   /\ UNCHANGED <<waits, slot, woken, pcC, takers>>
+  /\ UNCHANGED cvars
 
 (* fixed protocol: decrement first (the notification cell outlives the descriptor) ... *)
 FDropDec(h) ==
@@ -174,6 +199,7 @@ FDropDec(h) ==
   /\ hs' = [hs EXCEPT ![h] = IF count > 1 THEN "fchk" ELSE "gone"]
   /\ silentLast' = FALSE
   /\ UNCHANGED <<waits, slot, woken, pcC, takers>>
+  /\ UNCHANGED cvars
 
 (* ... then read waits and wake *)
 FDropNotify(h) ==
@@ -181,6 +207,7 @@ FDropNotify(h) ==
   /\ (IF waits THEN Wake ELSE UNCHANGED <<woken, slot>>)
   /\ hs' = [hs EXCEPT ![h] = "gone"]
   /\ UNCHANGED <<count, waits, pcC, takers, closed, silentLast>>
+  /\ UNCHANGED cvars
 
 -----------------------------------------------------------------------------
 (* the closer: first poll of take(), site fd.take.swap: waits.swap(true) *)
@@ -189,6 +216,7 @@ CSwap ==
   /\ waits' = TRUE
   /\ pcC' = "u1"
   /\ UNCHANGED <<count, slot, woken, hs, takers, closed, silentLast>>
+  /\ UNCHANGED cvars
 
 TryUnwrap(next) ==
   IF count = 1 THEN /\ count' = 0 /\ closed' = closed + 1 /\ pcC' = "done"
@@ -199,33 +227,47 @@ CUnwrap1 ==
   /\ pcC = "u1" /\ Quiet("C")
   /\ TryUnwrap("reg")
   /\ UNCHANGED <<waits, slot, woken, hs, takers, silentLast>>
+  /\ UNCHANGED cvars
 
-(* site fd.take.register *)
+(* site fd.take.register: WakerSlot / AtomicWaker::register stores the waker of THIS poll
+   (it replaces a different one). Control RegisterOnce: only the first time. *)
 CRegister ==
   /\ pcC = "reg" /\ Quiet("C")
-  /\ slot' = TRUE
+  /\ slot' = IF RegisterOnce /\ registered THEN slot ELSE wk
+  /\ registered' = TRUE
   /\ pcC' = "u2"
-  /\ UNCHANGED <<count, waits, woken, hs, takers, closed, silentLast>>
+  /\ UNCHANGED <<count, waits, woken, wk, nmig, hs, takers, closed, silentLast>>
 
 (* site fd.take.unwrap2; failing means Poll::Pending *)
 CUnwrap2 ==
   /\ pcC = "u2" /\ Quiet("C")
   /\ TryUnwrap("pending")
   /\ UNCHANGED <<waits, slot, woken, hs, takers, silentLast>>
+  /\ UNCHANGED cvars
 
-(* the executor polls the woken task again *)
+(* the executor polls the woken task that owns the future again *)
 CRepoll ==
-  /\ pcC = "pending" /\ woken /\ Quiet("C")
-  /\ woken' = FALSE
+  /\ pcC = "pending" /\ wk \in woken /\ Quiet("C")
+  /\ woken' = woken \ {wk}
   /\ pcC' = "u1"
-  /\ UNCHANGED <<count, waits, slot, hs, takers, closed, silentLast>>
+  /\ UNCHANGED <<count, waits, slot, cvars, hs, takers, closed, silentLast>>
 
-(* a poll nobody asked for (select!, join!, a busy executor); never required to happen *)
+(* a poll nobody asked for (select!, join!, a busy executor), same task; never required to happen *)
 CSpurious ==
   /\ AllowSpurious
-  /\ pcC = "pending" /\ ~woken /\ Quiet("C")
+  /\ pcC = "pending" /\ wk \notin woken /\ Quiet("C")
   /\ pcC' = "u1"
-  /\ UNCHANGED <<count, waits, slot, woken, hs, takers, closed, silentLast>>
+  /\ UNCHANGED <<count, waits, slot, woken, cvars, hs, takers, closed, silentLast>>
+
+(* the pending future has moved to another task (first polled under a timeout / select in task A,
+   then awaited in task B): the next poll comes with the other waker; never required to happen *)
+CMigrate ==
+  /\ nmig < MaxMigrate
+  /\ pcC = "pending" /\ Quiet("C")
+  /\ wk' = 3 - wk /\ nmig' = nmig + 1
+  /\ woken' = woken \ {3 - wk}
+  /\ pcC' = "u1"
+  /\ UNCHANGED <<count, waits, slot, registered, hs, takers, closed, silentLast>>
 
 (* the closer's reference is given up without closing. Old code and fixed protocol: one silent
    decrement (nobody waits for the closer itself). Repaired code: the SharedFd inside the future
@@ -241,6 +283,7 @@ CCancel ==
   /\ pcC = "pending" /\ Quiet("C")
   /\ GiveUp
   /\ UNCHANGED <<waits, slot, woken, hs, takers, silentLast>>
+  /\ UNCHANGED cvars
 
 (* the future returned by close() / take() is dropped before its first poll.
    Old file layer (deviation ForgetsHandle): the ManuallyDrop<File> inside is never dropped. *)
@@ -250,30 +293,34 @@ CDropUnpolled ==
   /\ (IF FileLayer /\ ForgetsHandle THEN /\ pcC' = "forgot" /\ UNCHANGED <<count, closed>>
                                      ELSE GiveUp)
   /\ UNCHANGED <<waits, slot, woken, hs, takers, silentLast>>
+  /\ UNCHANGED cvars
 
 CDropCheck ==
   /\ pcC = "dchk" /\ Quiet("C")
   /\ pcC' = IF count = 2 /\ waits THEN "dwake" ELSE "ddec"
   /\ UNCHANGED <<count, waits, slot, woken, hs, takers, closed, silentLast>>
+  /\ UNCHANGED cvars
 
 CDropWake ==
   /\ pcC = "dwake" /\ Quiet("C")
   /\ Wake
   /\ pcC' = "ddec"
   /\ UNCHANGED <<count, waits, hs, takers, closed, silentLast>>
+  /\ UNCHANGED cvars
 
 CDropDec ==
   /\ pcC = "ddec" /\ Quiet("C")
   /\ Unref
   /\ pcC' = "cancelled"
   /\ UNCHANGED <<waits, slot, woken, hs, takers, silentLast>>
+  /\ UNCHANGED cvars
 
 -----------------------------------------------------------------------------
 HNext(h) == \/ DropCheck(h) \/ DropWake(h) \/ DropDec(h)
             \/ T2Swap(h) \/ T2None(h) \/ T2Release(h)
             \/ FDropDec(h) \/ FDropNotify(h)
             \/ \E src \in (Handles \ Ops) \cup {"C"} : Clone(src, h)
-CNext == CSwap \/ CUnwrap1 \/ CRegister \/ CUnwrap2 \/ CRepoll \/ CSpurious \/ CCancel
+CNext == CSwap \/ CUnwrap1 \/ CRegister \/ CUnwrap2 \/ CRepoll \/ CSpurious \/ CMigrate \/ CCancel
          \/ CDropUnpolled \/ CDropCheck \/ CDropWake \/ CDropDec
 Next == CNext \/ \E h \in Handles : HNext(h)
 
@@ -307,10 +354,16 @@ Safe == TypeOK /\ CountOK /\ ClosedOnce /\ ClosedMeansAlone /\ DoneMeansClosed /
 (* everybody else has let go and close() has been called *)
 AllReleased == pcC \notin {"idle", "forgot"} /\ \A h \in Handles : hs[h] \in {"none", "gone", "fchk"}
 Finished == pcC \in {"done", "cancelled"}
-Stranded == pcC = "pending" /\ ~woken /\ \A h \in Handles : hs[h] \in {"none", "gone"}
+(* the task that owns the future (waker of the latest poll) has not been woken *)
+Stranded == pcC = "pending" /\ wk \notin woken /\ \A h \in Handles : hs[h] \in {"none", "gone"}
 
-(* the liveness clause of the property *)
+(* the liveness clause of the property: CRepoll is the only fair way on, and it needs the waker
+   of the LATEST poll to have been woken *)
 Live == AllReleased ~> Finished
+(* safety form for the single-threaded code: whenever the closer waits, the stored waker is the
+   one of its latest poll (or that task has already been woken) *)
+SlotIsLatest == (pcC = "pending" /\ Variant = "unsync" /\ ~(\E h \in Handles : MidH(h))) =>
+                  (slot = wk \/ wk \in woken)
 (* the same modulo the recorded deviation SilentRelease: in the unsync variant every strand
    is caused by a silent last release *)
 LiveModuloSilent == AllReleased ~> (Finished \/ (Stranded /\ silentLast))
